@@ -2738,9 +2738,10 @@ class Huber(Functional):
                 index = norm.ufuncs.greater_equal(functional.gamma)
                 if isinstance(self.domain, ProductSpace):
                     for xi, gi in zip(x, grad):
-                        gi[index] = xi[index] / norm[index]
+                        gi[index] = (xi.asarray()[index] /
+                                     norm.asarray()[index])
                 else:
-                    grad[index] = x[index] / norm[index]
+                    grad[index] = x.asarray()[index] / norm.asarray()[index]
 
                 return grad
 
